@@ -38,6 +38,11 @@ func spec_render(s Snippet, ctx context.Context) string {
 //@   pure
 //@   note interface method: assumed a deterministic observer without side effects
 
+//@ func TArg.Args
+//@   pure
+//@   iterator
+//@   note interface method (implemented by Args and *arg, whose iterators are verified to do nothing but yield their bindings): ASSUMED for other implementations - handing over the bindings has no side effect
+
 //@ func Args.Args
 //@   props C09 C01
 //@   lit 1 ensures !stopped ==> len(out) == len(args) && len(out2) == len(out) && (forall j int :: 0 <= j && j < len(out) ==> has(args, out[j]) && out2[j] == args[out[j]]) && (forall k string :: has(args, k) ==> elem(k, out))
@@ -75,6 +80,7 @@ func Spec_templateFormat(s Snippet) string {
 
 //@ func T
 //@   props C09 C01
+//@   assigns nothing
 //@   ensures spec_templateOf(result) != nil && fresh(spec_templateOf(result)) && spec_templateOf(result).format == fmt && spec_templateOf(result).args != nil
 //@   loop 1 invariant t != nil && t.format == fmt && t.args != nil && fresh(t)
 //@   loop 2 invariant t != nil && t.format == fmt && t.args != nil && fresh(t)
